@@ -248,6 +248,10 @@ class Ctx:
       self._violation(rec)
       return
     info = rec['info'] or {}
+    for v in info.get('violations', []):
+      # a macro case may report several violating executions and keep exploring
+      self._violation({'sub': sub, 'case': case, 'min_case': v.get('case'), 'msg': v.get('msg'),
+                       'expected': jsonable(v.get('expected')), 'observed': jsonable(v.get('observed'))})
     ev = int(info.get('evals', 1))
     sp['evaluations'] += ev
     self.evaluations += ev
@@ -289,7 +293,7 @@ class Ctx:
     key = self.prop + ':' + case_key(sub, case)
     self.subspaces[sub]['violations'] += 1
     for k in self.known:
-      if fnmatch.fnmatchcase(key, k['match']):
+      if wildcard_match(k['match'], key):
         if k['match'] not in [h['match'] for h in self.known_hits]:
           print('KNOWN-FINDING: property=%s %s [%s]' % (self.prop, k['summary'], k['match']), flush=True)
           self.known_hits.append(k)
@@ -341,6 +345,12 @@ class Ctx:
       json.dump(ev, f, indent=1, sort_keys=False)
     os.replace(tmp, path)
     return path
+
+
+def wildcard_match(pattern, key):
+  """Only '*' is special (any substring); everything else is literal."""
+  import re
+  return re.fullmatch('.*'.join(re.escape(p) for p in pattern.split('*')), key, re.S) is not None
 
 
 def jsonable_case(case):
